@@ -66,6 +66,7 @@ class Interp(object):
         self.auto_unfold = True
         self._qcache = {}
         self._quant_cache = {}
+        self._seq_cache = {}
         self.used_lemmas = set()
         self.entry_snapshot = None
         self.contract_globals = {}
@@ -159,7 +160,7 @@ class Interp(object):
             # still recorded: trivially discharged obligations count
             pass
         ob = Obligation(list(self.st.pc), g, kind, descr, where, list(self.br.decisions[:self.br.di]))
-        ob.seq = self.seq_mode
+        ob.seq = self.seq_mode or self.uses_seq(g) or any(self.uses_seq(p) for p in self.st.pc)
         self.st.obligations.append(ob)
 
     def decide(self, t):
@@ -228,6 +229,31 @@ class Interp(object):
             self._quant_cache[k] = r
         return r[0]
 
+    def uses_seq(self, t):
+        k = t.get_id()
+        r = self._seq_cache.get(k)
+        if r is None:
+            found = False
+            stack = [t]
+            seen = set()
+            while stack:
+                x = stack.pop()
+                i = x.get_id()
+                if i in seen:
+                    continue
+                seen.add(i)
+                if z3.is_quantifier(x):
+                    stack.append(x.body())
+                    continue
+                if x.sort().kind() == z3.Z3_SEQ_SORT:
+                    found = True
+                    break
+                if z3.is_app(x):
+                    stack.extend(x.children())
+            r = (found, t)
+            self._seq_cache[k] = r
+        return r[0]
+
     def query(self, pc, extra, budget_ms=600, values=None):
         # engine-internal queries ignore quantified hypotheses: feasibility is then
         # over-approximated and entailment under-approximated, both sound
@@ -237,7 +263,8 @@ class Interp(object):
             r = self._qcache.get(key)
             if r is not None:
                 return r[0]
-        if self.seq_mode:
+        if self.seq_mode or self.uses_seq(extra) or any(self.uses_seq(p) for p in pc):
+            self.seq_mode = True
             from . import solver
             res, vals, _ = solver.check(list(pc) + [extra], budget_ms, True, values)
             r = {'sat': z3.sat, 'unsat': z3.unsat}.get(res, z3.unknown)
@@ -589,7 +616,12 @@ class Interp(object):
     def freeze_obj(self, ref):
         """Turn a heap object into an Obj term with field facts (immutable snapshot)."""
         c = self.cell(ref)
+        fz = self.st.overlay.setdefault('__frozen__', {})
+        hit = fz.get((ref.id, id(c)))
+        if hit is not None:
+            return hit[0]
         t = self.fresh_const('obj', ObjS)
+        fz[(ref.id, id(c))] = (t, c)
         from .shapes import field_shape
         for name, v in c.fields.items():
             sh = field_shape(c.cls, name)
@@ -1357,7 +1389,7 @@ class Interp(object):
             return self.list_seq_term(self.cell(v), ek)
         if isinstance(v, (tuple, list)):
             return self.tuple_seq_term(v, ek)
-        raise OutOfReach('sequence expected')
+        raise OutOfReach("sequence expected: %r" % (v,))
 
     # ------------------------------------------------------------- comparison
     def compare(self, op, a, b):
